@@ -17,7 +17,7 @@ int main(int argc, char** argv) {
     unsigned long long seed = std::strtoull(argv[1], 0, 10); int nsys = std::atoi(argv[2]); int maxb = argc > 3 ? std::atoi(argv[3]) : 10;
     Rng r(seed);
     for (int k = 0; k < nsys; ++k) {
-        RandSystem rs; Force::DiscreteForces df(rs.forces, rs.matter);
+        RandSystem rs; rs.ntypes = NMOBTYPES_ALL; Force::DiscreteForces df(rs.forces, rs.matter);
         int nb = r.I(1, maxb); int shape = r.I(0, 2);
         try { rs.build(r, nb, shape); } catch (const std::exception& e) { continue; }
         State& s = rs.state; const SimbodyMatterSubsystem& m = rs.matter;
